@@ -139,6 +139,15 @@ def _dom_interplin(tier, seed):
             v = np.array([float(rng.randint(-8, 8)) for _ in range(n)])
             u = [x[0] - 2.0, x[0], x[-1], x[-1] + 4.0] + list(x) + [float(rng.uniform(x[0] - 1, x[-1] + 1)) for _ in range(4)]
             yield dict(args=[v, x, np.array(u)])
+        for _ in range(3 if tier == "quick" else 30):
+            # tables over whole numbers held in integer columns (either column), queried between and beyond the nodes
+            off = rng.choice([0, 0, 50, -4])
+            xi = (np.cumsum([rng.choice([1, 1, 2, 6]) for _ in range(n)]) + off).astype(rng.choice(["i8", "i4", "i2", "u2"] if off >= 0 else ["i8", "i4", "i2"]))
+            vi = np.array([rng.randint(-8, 8) for _ in range(n)], dtype=rng.choice(["f8", "i8", "i4"]))
+            lo, hi = float(xi[0]), float(xi[-1])
+            u = [lo - 2.0, lo, hi, hi + 4.0, lo + 0.5, hi - 0.25] + [float(k) for k in xi] + [float(rng.uniform(lo - 1, hi + 1)) for _ in range(6)]
+            yield dict(args=[vi, xi, np.array(u)])
+            yield dict(args=[vi, xi, np.array([int(k) for k in xi] + [int(xi[0]) - 1, int(xi[-1]) + 2], dtype="i8")])
 
 
 # ------------------------------------------------------------------------------------------------ weighted median
